@@ -36,6 +36,11 @@ CHECKS = {
             "960 configurations (Content-Encoding identity/gzip/br/unsupported x 5 content types x 6 CSP shapes x plain/HX-Request x skip marker x client Accept-Encoding) x 6 representative documents, plus every document of a small well-formed-HTML grammar (4 shells x every body of up to 2/3 of 14 fragments incl. existing scripts containing </body>, comments, RCDATA, tables, SVG, entities, non-ASCII) and 4 KB / 1 MB (/4 MB) fillers x 16 core configurations, through proxy.New(...).ServeHTTP with an httptest backend. Modified case: the body decodes with the response's Content-Encoding, re-parses to a DOM equal to parse(original) plus exactly one reload script as last child of the first body carrying the first script-src nonce; Content-Length equals bytes sent. Pass-through case: body, Content-Encoding and Content-Type byte-identical.",
             "DOM equality via x/net/html re-parse; documents limited to the grammar; loopback sockets only.",
             "4.20", "enum"),
+    "C12": ("model_checking",
+            "explicit-state BFS to closure over real rendering contexts vs set-of-emitted reference model",
+            "State = per-context set of emitted script names, CSS class ids and once handles (2 of each, 2 contexts, 3 CSS-middleware variants). 29 operations compiled at check time (script component, on* attributes, every class container form the runtime switch knows, once handle with block / fixed component, each also through a wrapper component, inside a child block and repeated) are applied to the real context reached by replaying the shortest history; breadth-first search runs to closure of the finite state space, and every unmerged history up to depth 3/4 over the 14 base operations and 2 contexts is run as well to validate the state key. Every transition's bytes must equal the reference model (fresh-context output minus definitions already in the set); fresh outputs are checked for at-most-once, definition-before-first-use and presence of every use; middleware classes are served by the stylesheet endpoint and never inlined.",
+            "Model state key assumes the emitted-id sets are the whole mutable context (contextValue.ss / onceHandles), validated by the unmerged enumeration.",
+            "4.12", "bfs"),
     "C17": ("model_checking",
             "explicit-state BFS over real Document objects vs byte-splice reference",
             "Every document up to 4 (quick) / 5 (thorough) bytes over {a,b,\\n}, every ordered range including positions beyond the line and document end, six replacement texts and the nil-range full replace, chained breadth-first to depth 2/3 over the resulting documents; each transition runs the real Document.Apply on a fresh instance and is compared with a byte-splice reference. Exhaustive within the bound, so every clamping/branching combination of the edit classifier is reached.",
